@@ -76,19 +76,26 @@ def _slice_len(sli):
     return sli.stop - sli.start + 1
 
 
-def augment_slice(s, phase):
-    """Augment a slice to include the closest trough to the left."""
-    xx = np.where(np.flipud(phase[:s.start]) < 1.5*np.pi)[0]
+def augment_slice(s, phase, prev=None):
+    """Augment a slice to start just after the trough of the previous cycle.
+
+    Same rule as map_cycle_to_samples_augmented: the augmented cycle starts at
+    the first sample of the previous cycle (slice prev) whose phase is past
+    1.5*pi, there is none if the previous cycle has no such sample or if there
+    is no previous cycle.
+    """
+    if prev is None:
+        return None
+    xx = np.where(phase[prev] > 1.5*np.pi)[0]
     if len(xx) == 0:
         return None
-    start_diff = xx[0]
-    s2 = slice(s.start - start_diff, s.stop)
-    return s2
+    return slice(prev.start + xx[0], s.stop)
 
 
 def make_aug_slice_cache(slice_cache, phase, func=augment_slice):
     """Build a slice cache of augmented slices defined by some function."""
-    return [func(s, phase) for s in slice_cache]
+    prevs = [None] + list(slice_cache[:-1])
+    return [func(s, phase, prev) for s, prev in zip(slice_cache, prevs)]
 
 
 # --------------------------------------
